@@ -22,8 +22,8 @@ j) every L0 id allocation site (next_for_level(0) feeding queue_for_flush) is co
 Not decided: crash points between steps, WAL replay vs published segment duplication, buffered WAL prefix semantics, fsync actually reaching disk.
 Borrowed: C18.a (the event id is assigned before the WAL entry is built: recovery then reproduces the ids reads de-duplicate by, which is what makes an event present in both an unpruned log and a segment count once).
 """
-FLOOR = 15
-REQUIRED = ["C01.a", "C01.b1", "C01.b2", "C01.c", "C01.d", "C01.e", "C01.f", "C01.g", "C01.h", "C01.i", "C01.j", "C01.k", "C01.l", "C01.m"]
+FLOOR = 16
+REQUIRED = ["C01.a", "C01.b1", "C01.b2", "C01.c", "C01.d", "C01.e", "C01.f", "C01.g", "C01.h", "C01.i", "C01.j", "C01.k", "C01.l", "C01.m", "C01.n"]
 ASSUMPTIONS = ["tokio mpsc mailbox is FIFO", "WalHandle::append completing means the entry was handed to the WAL writer task"]
 
 FIVE = ["timestamp", "context_id", "event_type", "payload", "event_id"]
@@ -578,6 +578,55 @@ def run(ctx):
                 bad.append(("l0-seed-counts-unindexed-dirs", "SegmentIdLoader::load takes every numeric directory as a live segment without consulting segments.idx: the directory of a flush that crashed before publication shifts the next L0 id above the WAL position and the re-flush's cleanup unlinks the active log", None))
         return bad
     ctx.run("C01.m", "K11 SIB + K10 READS", "id lockstep at start-up (ShardContext::new)", "segment ids and WAL log ids start in step: each seed takes the other sequence into account", m)
+
+    def n_(inst):
+        # writer/reader agreement of the derived serde impls: a field the reader insists on (missing_field)
+        # is written on every successful path of the writer (no skip_serializing_if without a default)
+        SER = re.compile(r"^(.*)::_::<impl .*_serde::Serialize for (.+)>::serialize$")
+        sers = {}
+        for k in F.keys():
+            m_ = SER.match(k)
+            if m_:
+                sers[m_.group(2)] = k
+        WAL = "engine::core::wal::wal_entry::WalEntry"
+        if WAL not in sers:
+            raise AnchorMissing("derived Serialize of WalEntry")
+        bad, n = [], 0
+        for ty, sk in sorted(sers.items()):
+            vm = [k for k in F.keys() if k.startswith("<") and "Deserialize<'de> for %s>::deserialize::__Visitor<'de> as" % ty in k and k.endswith("::visit_map")]
+            if not vm:
+                if ty == WAL:
+                    raise AnchorMissing("derived Deserialize (visit_map) of WalEntry")
+                continue
+            vb, sb = F.fn_exact(vm[0]), F.fn_exact(sk)
+            required = set()
+            for c in vb.find_calls(r"de::missing_field$"):
+                required |= str_consts(vb, c.args[0], 0)
+            ends = sb.find_calls(r"ser::SerializeStruct::end$")
+            if not ends or not required:
+                if ty == WAL:
+                    raise AnchorMissing("required fields / SerializeStruct::end of WalEntry")
+                continue
+            n += 1
+            written = {}
+            for c in sb.find_calls(r"ser::SerializeStruct::serialize_field$"):
+                for nm in str_consts(sb, c.args[1], 0):
+                    written.setdefault(nm, []).append(c)
+            for f in sorted(required):
+                cs = written.get(f, [])
+                if not cs:
+                    # renamed fields are not matched by name: only report what is provably skipped
+                    continue
+                if all(re.search(r"serialize_field::<(std|core)::option::Option<", c.ga or "") for c in cs):
+                    continue    # serde reads a missing Option field as None
+                for e in ends:
+                    if not any(sb.dominates(c.bb, e.bb) for c in cs):
+                        bad.append(("field-skipped:%s.%s" % (ty.split("::")[-1], f), "%s.%s can be left out by the writer (skip_serializing_if) while the reader fails with `missing field` without it: %s" % (ty.split("::")[-1], f, "a WAL line written without it is dropped at recovery" if ty == WAL else "such a record cannot be read back"), sp(sb, cs[0].bb)))
+        inst.sites = ["%d serde struct pairs (Serialize + Deserialize::visit_map) compared" % n]
+        if n < 10:
+            raise AnchorMissing("serde struct pairs: %d" % n)
+        return bad
+    ctx.run("C01.n", "K11 SIB + K1", "derived serde writer / reader pairs (WalEntry and every persisted struct)", "a field the reader requires is written on every successful path of the writer", n_)
 
 
 def _capacity_products(body):
